@@ -317,8 +317,9 @@ func expectedGroups(c *SpecCase) []expGroup {
 	return out
 }
 
-// checkSeriesDoc: the property on one response. Returns (kind, message) of the first discrepancy, kind == "" if none.
-func checkSeriesDoc(w string, body string, groups []expGroup, k *concrete) (string, string) {
+// checkSeriesDoc: the property on one response. groups[].Fp indexes lbls. Returns (kind, message) of the first
+// discrepancy, kind == "" if none.
+func checkSeriesDoc(w string, body string, groups []expGroup, rows map[int]*rowC, lbls []map[string]string) (string, string) {
 	doc, err := strictParse([]byte(body))
 	if err != nil {
 		return "invalid-json", err.Error()
@@ -343,7 +344,7 @@ func checkSeriesDoc(w string, body string, groups []expGroup, k *concrete) (stri
 		}
 	}
 	if w == "vector" {
-		return checkVector(res, groups, k)
+		return checkVector(res, groups, rows, lbls)
 	}
 	lblKey := "stream"
 	if w == "matrix" {
@@ -353,18 +354,21 @@ func checkSeriesDoc(w string, body string, groups []expGroup, k *concrete) (stri
 	if err != nil {
 		return "shape", err.Error()
 	}
+	if len(got) < len(groups) {
+		return "rows-missing", fmt.Sprintf("%d result objects for %d runs of equal fingerprint", len(got), len(groups))
+	}
 	if len(got) != len(groups) {
 		return "grouping", fmt.Sprintf("%d result objects for %d runs of equal fingerprint", len(got), len(groups))
 	}
 	for n, g := range groups {
-		if !sameLabels(got[n].Labels, decodedMap(k.labels[g.Fp])) {
-			return "labels", fmt.Sprintf("result[%d] carries labels %q, the rows carry %q", n, got[n].Labels, k.labels[g.Fp])
+		if !sameLabels(got[n].Labels, decodedMap(lbls[g.Fp])) {
+			return "labels", fmt.Sprintf("result[%d] carries labels %q, the rows carry %q", n, got[n].Labels, lbls[g.Fp])
 		}
 		if len(got[n].Vals) != len(g.Ids) {
 			return "rows", fmt.Sprintf("result[%d] has %d values for %d rows", n, len(got[n].Vals), len(g.Ids))
 		}
 		for m, id := range g.Ids {
-			row := k.rows[id]
+			row := rows[id]
 			ts, v := got[n].Vals[m][0], got[n].Vals[m][1]
 			if w == "matrix" {
 				if !secondsTextIsNs(ts, row.Ts) {
@@ -386,7 +390,10 @@ func checkSeriesDoc(w string, body string, groups []expGroup, k *concrete) (stri
 	return "", ""
 }
 
-func checkVector(res []any, groups []expGroup, k *concrete) (string, string) {
+func checkVector(res []any, groups []expGroup, rows map[int]*rowC, lbls []map[string]string) (string, string) {
+	if len(res) < len(groups) {
+		return "rows-missing", fmt.Sprintf("%d result objects for %d series", len(res), len(groups))
+	}
 	if len(res) != len(groups) {
 		return "grouping", fmt.Sprintf("%d result objects for %d series", len(res), len(groups))
 	}
@@ -411,11 +418,11 @@ func checkVector(res []any, groups []expGroup, k *concrete) (string, string) {
 		}
 		found := false
 		for gi, g := range groups {
-			if used[gi] || !sameLabels(lbl, decodedMap(k.labels[g.Fp])) {
+			if used[gi] || !sameLabels(lbl, decodedMap(lbls[g.Fp])) {
 				continue
 			}
 			used[gi], found = true, true
-			row := k.rows[g.Ids[0]]
+			row := rows[g.Ids[0]]
 			if !secondsTextIsNs(num.String(), row.Ts) {
 				return "timestamp-loss", fmt.Sprintf("timestamp %d ns rendered as %s", row.Ts, num.String())
 			}
@@ -469,7 +476,7 @@ func judgeSeries(c *SpecCase, k *concrete, body string) {
 		return
 	}
 	groups := expectedGroups(c)
-	kind, msg := checkSeriesDoc(c.W, body, groups, k)
+	kind, msg := checkSeriesDoc(c.W, body, groups, k.rows, k.labels[:])
 	if kind == "" {
 		stat("property_ok", 1)
 		if !c.specOK() {
